@@ -310,7 +310,9 @@ class ConvolvedFluxes(object):
                 apertures[c.apertures > self.apertures.max()] = self.apertures.max()
 
             # If any apertures are smaller than the defined min, raise error
-            if np.any(c.apertures < self.apertures.min()):
+            # (an aperture that equals the smallest one up to rounding, e.g.
+            # from a log-spaced distance grid, is not too small)
+            if np.any(c.apertures < self.apertures.min() * (1. - 1.e-10)):
                 raise Exception("Aperture(s) requested too small")
 
             # Note that we have to be careful here because interp1d will drop
